@@ -5,7 +5,7 @@ import os
 from ..lib import cbuild, tlc
 from ..lib.common import workdir, rmworkdir, seed, log, MachineryError
 from ..lib.report import Report
-from ..drivers import ctldrv
+from ..drivers import ctldrv, replaylib
 
 PID = 'C14'
 FT_KEYS = ('kind', 'len', 'isend', 'pre', 'from', 'limit', 'ctl', 'n', 'clip', 'post', 'ret', 'exc')
@@ -77,3 +77,40 @@ def run(tier):
                 'distinct_nontrivial = distinct inputs')
     rmworkdir('c14')
     return rep.finish()
+
+
+def replay(path):
+    """./check C14 --replay replays/C14-n.json : the recorded abstract image through _find_terminal_instruction again, or the
+    recorded image / range / code map / options through sna2ctl (+ sna2skool + skool2bin) of the current tree again; CtlCases judges."""
+    d, rp = replaylib.load(path, PID)
+    wd = workdir('replay-c14')
+    cbuild.repo_only()
+    if rp.get('kind') == 'ft':
+        replaylib.need(rp, path, 'len', 'isend', 'pre', 'from', 'limit', 'ctl')
+        full = [ctldrv.ft_replay(rp)]
+        cases = [{k: c[k] for k in FT_KEYS} for c in full]
+    elif rp.get('kind') == 'out':
+        replaylib.need(rp, path, 'image', 'org', 'args', 'map', 'strict', 'start', 'end')
+        # the format of the code map file was not recorded by older runs: every format then
+        fmts = [rp['mapfmt']] if 'mapfmt' in rp else (['z80', 'specemu', 'rzxplay', 'fuse', 'spud'] if rp['map'] else [''])
+        full = [ctldrv.out_replay(os.path.join(wd, 'f%d' % i), rp, fmt) for i, fmt in enumerate(fmts)]
+        cases = [{k: c[k] for k in OUT_KEYS} for c in full]
+    elif 'tlc_output_tail' in rp:
+        r = tlc.model_check('ctl', 'CtlGen', 'CtlGen_mc.cfg', timeout=1800, coverage=False)
+        rmworkdir('replay-c14')
+        return replaylib.verdict(PID, path, ['model:CtlGen_mc:%s' % inv for inv in r.violated])
+    else:
+        raise MachineryError('unusable replay file %s: neither a find-terminal call nor a sna2ctl run' % path)
+    r, fails = tlc.judge('ctl', 'CtlCases', 'CtlCases.cfg', cases, casefile=os.path.join(wd, 'ctl.json'))
+    found = []
+    for i, clause in fails:
+        c = full[i]
+        if c['kind'] == 'ft':
+            found.append('ft:%s:%s: _find_terminal_instruction(len=%s end=%s ctls=%s from=%d limit=%d ctl=%s) -> %s ret %s'
+                         % (c['ctl'], clause, c['len'], c['isend'], c['pre'], c['from'], c['limit'], c['ctl'], c['post'], c['ret']))
+        else:
+            found.append('out:%s:%s: sna2ctl %s (map format %s) on %d bytes at %d: directives %s; %s'
+                         % (c['image_kind'], clause, ' '.join(c['args']), c['mapfmt'] or '-', len(c['image']), c['org'], c['dirs'][:12],
+                            c.get('warning', '') or c['err'] or c['skoolerr']))
+    rmworkdir('replay-c14')
+    return replaylib.verdict(PID, path, found)
